@@ -7,7 +7,7 @@ CONSTANTS
   Offs <- EnvOffs
   NCat <- Cat
   MaxRec = 4
-  IdChoices = {1000, 7, 8}
+  IdChoices = {1000, 0, 7, 8}
   Pops = {0}
   Alls = {TRUE}
   Bests = {0}
